@@ -437,7 +437,7 @@ func c13Run(ctx *rt.Ctx) []*rt.Violation {
 	}
 	outs := rt.RunJobs(ctx, jobs, rt.SpawnOpt{})
 	vs := rt.Collect(ctx, outs, nil)
-	ctx.Cov.Note("rule", fmt.Sprintf("3 index files x server options {cache on/off} x {preload on/off}: every batch of length 0..%d over 8 queries (ungrouped, grouped by 1-2 columns, no match, NOT/OR/AND, one with an unknown column; for length <=2 also 3 structurally incomplete members) and 8 long batches of 4..12 queries (expensive first) x id patterns {all 0, explicit, duplicate, mixed} is sent to a real `updog server`; the response must hold one result per query in order with the id rule and the library's count and groups (library Execute on a copy of the file), an invalid member must fail the whole call; ToResult(ToProtobufResult(r)) == r for every library result; the 8 texts through sql.Open grpc:// and file: must give identical columns and rows; non-trivial = batches of >=2 queries and the driver comparisons", maxLen))
+	ctx.Cov.Note("rule", fmt.Sprintf("4 index files (one with prefix-related columns a / ab whose name+value concatenations coincide) x server options {cache on/off} x {preload on/off}: every batch of length 0..%d over 8 queries (ungrouped, grouped by 1-2 columns, no match, NOT/OR/AND, one with an unknown column; for length <=2 also 3 structurally incomplete members) and 8 long batches of 4..12 queries (expensive first) x id patterns {all 0, explicit, duplicate, mixed, explicit ids equal to later positions} is sent to a real `updog server`; the response must hold one result per query in order with the id rule and the library's count and groups (library Execute on a copy of the file), an invalid member must fail the whole call; ToResult(ToProtobufResult(r)) == r for every library result; the 8 texts through sql.Open grpc:// and file: must give identical columns and rows; non-trivial = batches of >=2 queries and the driver comparisons", maxLen))
 	ctx.Assumef("index strings are valid UTF-8 (protobuf strings cannot carry other bytes)")
 	return vs
 }
